@@ -314,7 +314,7 @@ func (jenny RawTypes) generateFromJSONMethod(context languages.Context, object a
 				return "", err
 			}
 		} else {
-			fromJSON := jenny.fromJSONForType(context, field.Type, value, field.Name)
+			fromJSON := jenny.fromJSONForType(context, field.Type, value, formatIdentifier(field.Name))
 			if fromJSON.Setup != "" {
 				setup += fromJSON.Setup + "\n            "
 			}
